@@ -21,6 +21,8 @@ enum FutStrategy {
     Generator,
     /// a forged absence anchored at the real ancestor at this depth
     Anchor(usize),
+    /// the same, with the queried label's length shortened to the anchor's length (value kept)
+    AnchorTruncatedLabel(usize),
 }
 
 impl<TC: ModelCfg> Server<TC> {
@@ -44,6 +46,16 @@ impl<TC: ModelCfg> Server<TC> {
                 let f = self.forged_absences(nl).await;
                 match f.into_iter().find(|(depth, _)| *depth == d) {
                     Some((_, p)) => p,
+                    None => self.non_member(nl).await,
+                }
+            }
+            (true, FutStrategy::AnchorTruncatedLabel(d)) => {
+                let f = self.forged_absences(nl).await;
+                match f.into_iter().find(|(depth, _)| *depth == d) {
+                    Some((_, mut p)) => {
+                        p.label = akd::NodeLabel::new(nl.label_val, p.longest_prefix.label_len);
+                        p
+                    }
                     None => self.non_member(nl).await,
                 }
             }
@@ -113,8 +125,20 @@ fn judge<TC: ModelCfg>(
                 let same = list.len() == truth.len()
                     && list.iter().zip(truth.iter()).all(|(g, t)| g.1 == t.1 && g.2 == t.2 && (g.0 == t.0 || (allow_missing && g.0.is_empty())));
                 if !same {
+                    // the one known gap: with AllowMissingValues an entry presented with the empty (tombstone) value
+                    // skips the leaf-hash check, so its EPOCH is not bound either
+                    let only_epochs_of_empty_entries = allow_missing
+                        && list.len() == truth.len()
+                        && list.iter().zip(truth.iter()).all(|(g, t)| g.1 == t.1 && (g.0 == t.0 || g.0.is_empty()) && (g.2 == t.2 || g.0.is_empty()));
+                    let misdated_versions: Vec<u64> = list.iter().zip(truth.iter()).filter(|(g, t)| g.2 != t.2).map(|(g, _)| g.1).collect();
+                    let ident = if only_epochs_of_empty_entries {
+                        // (version 1 has no stale-leaf proof that would bind its epoch; later versions do)
+                        format!("{}/history_misdates_entry_presented_as_tombstone/{}/allow_missing", TC::NAME, if misdated_versions.iter().all(|v| *v == 1) { "version_1_only" } else { "later_versions" })
+                    } else {
+                        format!("{}/history_accepts_wrong_list/{}/{}", TC::NAME, what, if allow_missing { "allow_missing" } else { "default" })
+                    };
                     rep.violation(
-                        format!("{}/history_accepts_wrong_list/{}/{}", TC::NAME, what, if allow_missing { "allow_missing" } else { "default" }),
+                        ident,
                         json!({"history": hist(), "label": show_bytes(label), "params": hp_name(p), "epoch": eh.0, "candidate": extra,
                                "accepted": list.iter().map(show_vr).collect::<Vec<_>>(), "truth": truth.iter().map(show_vr).collect::<Vec<_>>()}),
                     );
@@ -161,6 +185,7 @@ impl<'r, TC: ModelCfg> HistVisitor<TC> for V7<'r> {
                 let mut strategies = vec![FutStrategy::Generator];
                 for d in 0..self.max_anchor {
                     strategies.push(FutStrategy::Anchor(d));
+                    strategies.push(FutStrategy::AnchorTruncatedLabel(d));
                 }
                 for s in 1..=n {
                     for e in s..=(n + 1).min(cur) {
@@ -240,6 +265,17 @@ impl<'r, TC: ModelCfg> HistVisitor<TC> for V7<'r> {
                         let mut c = honest.clone();
                         c.update_proofs[i].epoch += 1;
                         cands.push((format!("epoch_plus_one_at_{i}"), c));
+                        // deviation 2: presented as a tombstone AND misdated
+                        let mut c = honest.clone();
+                        c.update_proofs[i].value = AkdValue(vec![]);
+                        c.update_proofs[i].epoch += 1;
+                        cands.push((format!("tombstone_and_epoch_plus_one_at_{i}"), c));
+                        if i + 1 < k {
+                            let mut c = honest.clone();
+                            c.update_proofs[i].value = AkdValue(vec![]);
+                            c.update_proofs[i].epoch = honest.update_proofs[i + 1].epoch;
+                            cands.push((format!("tombstone_and_epoch_of_older_at_{i}"), c));
+                        }
                         if honest.update_proofs[i].previous_version_proof.is_some() {
                             let mut c = honest.clone();
                             c.update_proofs[i].previous_version_proof = None;
